@@ -42,6 +42,8 @@ def check(c: Check):
     clause_c(c)
     clause_d(c)
     clause_e(c)
+    from .common import sweep_records
+    sweep_records(c, 'C10-rec', ['exactly_lib.util.process_execution', 'exactly_lib.util.file_utils', 'exactly_lib.impls.program_execution', 'exactly_lib.type_val_prims.program'], floor=8)
 
 
 def _param_chain(v):
